@@ -15,6 +15,8 @@ VERIF = os.path.dirname(os.path.dirname(os.path.abspath(__file__)))
 WHAT = {
     "C01": ("cola.ops.operator_base.LinearOperator.__matmul__", "A @ X equals the dense matrix times X, in the promoted dtype class, for every operand dtype and rank; the operand is unchanged",
             "one operator of every constructible kind and shape variant (n = 3), float64 and complex128 payloads; operands float32 / float64 / complex128, vectors and two-column blocks"),
+    "C02": ("cola.ops.operator_base.LinearOperator.__rmatmul__", "X @ A equals X times the dense matrix (1-D and multi-row operands); A.T and A.H act and densify as the transpose / conjugate transpose; towers A.T.T, A.H.H, A.T.H; the operand is unchanged",
+            "one operator of every constructible kind and shape variant (n = 3; BlockDiag with multiplicities [2, 1]), float64 and complex128 payloads; left operands float64 / complex128 with 1 and 3 rows"),
     "C03": ("cola.fns.add", "algebraic expressions act as the same expression on the dense matrices; operands unchanged",
             "sums / differences / products / scalar multiples and divisions / Kronecker products and sums / block diagonals over Dense, Diagonal, Identity, ScalarMul, Triangular, real and complex, "
             "mixed dtypes, n <= 4"),
@@ -23,6 +25,9 @@ WHAT = {
             "vectors and blocks whose column norms spread over 9 orders of magnitude"),
     "C07": ("cola.linalg.logdet.logdet.slogdet", "sign * exp(logabs) = det, |sign| = 1, logdet = log det for positive definite operators",
             "Dense / PSD / Triangular (and its transpose / adjoint) / Diagonal / ScalarMul / Permutation / Kronecker / BlockDiag / products / slices of PSD operators, real and complex, n <= 8; Auto, LU, Cholesky"),
+    "C08": ("cola.linalg.trace.diag_trace.diag", "diag(A, k) is the k-th diagonal of the dense matrix for every offset -n < k < n (Exact and the automatic default; a refusal by exception is allowed), trace(A) its trace",
+            "Dense / Diagonal / Identity / ScalarMul / Sum / Product / Kronecker and KronSum (2-3 factors) / BlockDiag with blocks of unequal size (smaller and larger than |k|) and multiplicities, "
+            "sums and products containing them, real and complex, n <= 15 and one n = 230 (beyond the probing block of 100, not a multiple of it)"),
     "C09": ("cola.linalg.unary.unary.apply_unary", "f(A) V equals the dense matrix function applied to V (principal branch); sqrt twice = A; power -1 = inverse",
             "positive definite real and complex Hermitian Dense / Diagonal / ScalarMul / Identity / BlockDiag / Kronecker / KronSum, float32 and float64, n <= 6; Auto, Eigh, Eig; exp, log, sqrt, isqrt, pow, user functions"),
     "C11": ("cola.linalg.decompositions.decompositions.plu", "L lower / U upper triangular, P a permutation matrix (each factor densified on its own), L L^H = A, P L U = A",
@@ -177,6 +182,60 @@ def main():
                                 found(clause="the result has the promoted dtype class of the dense computation", input=inp, observed=str(out.dtype), expected=str(ref.dtype))
                             if not np.array_equal(X, X0):
                                 found(clause="the operand array is unchanged", input=inp, observed="modified", expected="bit-identical")
+    elif prop == "C02":
+        from vcgen import kinds as KK
+        for kind in sorted(KK.all_operator_kinds()):
+            if kind in ("ConvolveND", "Sparse"):
+                continue
+            for variant in KK.VARIANTS.get(kind, ["square"]):
+                for dt in (np.float64, np.complex128):
+                    try:
+                        op = KK.make(kind, rng, 3, dt, variant)
+                    except Exception:
+                        continue
+                    name = f"{kind}[{variant}] {np.dtype(dt).name}"
+                    D = attempt(f"{name}.to_dense()", lambda: dn(op))
+                    if D is None:
+                        continue
+                    views = [("A", op, D)]
+                    # known finding C02-transpose-selfadjoint: a complex operator declared SelfAdjoint is transposed to itself; those views are left out
+                    skipT = dt == np.complex128 and op.isa(cola.SelfAdjoint)
+                    for vn, mk, ref in (("A.T", lambda o: o.T, D.T), ("A.H", lambda o: o.H, D.conj().T), ("A.T.T", lambda o: o.T.T, D), ("A.H.H", lambda o: o.H.H, D), ("A.T.H", lambda o: o.T.H, D.conj())):
+                        if skipT and ".T" in vn:
+                            continue
+                        v = attempt(f"{name}: {vn}", lambda: mk(op))
+                        if v is not None:
+                            views.append((vn, v, ref))
+                    for vn, v, ref in views:
+                        if tuple(v.shape) != ref.shape:
+                            found(clause="shape of the transposed / adjoint operator", input=f"{name}: {vn}", observed=str(tuple(v.shape)), expected=str(ref.shape))
+                        if vn != "A":
+                            dd = attempt(f"({vn}).to_dense() of {name}", lambda: dn(v))
+                            if dd is not None:
+                                n_cases[0] += 1
+                                if rel(dd, ref) > 1e-9:
+                                    found(clause="dense form of the transposed / adjoint operator", input=f"({vn}).to_dense() of {name}", observed=f"relative deviation {rel(dd, ref):.2e}", expected="<= 1e-9")
+                        for xdt in (np.float64, np.complex128):
+                            for rows in (None, 3):
+                                cp = xdt == np.complex128
+                                X = rnd(v.shape[0], cplx=cp) if rows is None else rnd(rows, v.shape[0], cplx=cp)
+                                X0 = X.copy()
+                                inp = f"({np.dtype(xdt).name} {'vector' if rows is None else '3-row block'}) @ ({vn}) of {name}"
+                                out = attempt(inp, lambda: np.asarray(X @ v))
+                                if out is not None:
+                                    n_cases[0] += 1
+                                    if rel(out, X0 @ ref) > 1e-9:
+                                        found(clause="X @ A equals X times the dense matrix", input=inp, observed=f"shape {out.shape}, relative deviation {rel(out, X0 @ ref):.2e}", expected="<= 1e-9")
+                                    if not np.array_equal(X, X0):
+                                        found(clause="the operand array is unchanged", input=inp, observed="modified", expected="bit-identical")
+                                if vn != "A":
+                                    V = rnd(v.shape[1], cplx=cp) if rows is None else rnd(v.shape[1], 2, cplx=cp)
+                                    inp2 = f"({vn}) of {name} @ ({np.dtype(xdt).name} {'vector' if rows is None else 'block'})"
+                                    out2 = attempt(inp2, lambda: np.asarray(v @ V))
+                                    if out2 is not None:
+                                        n_cases[0] += 1
+                                        if rel(out2, ref @ V) > 1e-9:
+                                            found(clause="A.T / A.H act as the transpose / conjugate transpose", input=inp2, observed=f"relative deviation {rel(out2, ref @ V):.2e}", expected="<= 1e-9")
     elif prop == "C03":
         for cplx in (False, True):
             t = "complex" if cplx else "real"
@@ -255,6 +314,17 @@ def main():
                     rn_ = np.linalg.norm(r, axis=0) / np.linalg.norm(b, axis=0)
                     if np.max(rn_) > tol:
                         found(clause="A (inv(A) b) = b for every column", input=inp, observed=f"relative residual per column {np.round(np.atleast_1d(rn_), 10).tolist()}", expected=f"<= {tol:g}")
+                # history: the same inverse object applied to a large right-hand side, then to a small one (a product must not depend on earlier products)
+                for shp in ((n,), (n, 2)):
+                    b1, b2 = 1e10 * rnd(*shp, cplx=cplx), rnd(*shp, cplx=cplx)
+                    inp = f"inv({name}, {an}): product with a right-hand side of scale 1e10, then with one of scale 1 (shape {shp})"
+                    attempt(inp, lambda: Ai @ b1)
+                    x2 = attempt(inp, lambda: Ai @ b2)
+                    if x2 is not None:
+                        n_cases[0] += 1
+                        r2 = np.linalg.norm(np.atleast_2d((D @ np.asarray(x2) - b2).T).T, axis=0) / np.linalg.norm(np.atleast_2d(b2.T).T, axis=0)
+                        if np.max(r2) > tol:
+                            found(clause="A (inv(A) b) = b on a second product with the same inverse object", input=inp, observed=f"relative residual per column {np.round(np.atleast_1d(r2), 10).tolist()}", expected=f"<= {tol:g}")
                 if not iterative:
                     Id = attempt(f"inv({name}, {an}).to_dense()", lambda: dn(Ai))
                     if Id is not None and rel(Id, np.linalg.inv(D)) > 1e-8:
@@ -266,6 +336,46 @@ def main():
                     xl = attempt(f"B @ inv({name}, {an})", lambda: np.asarray(bl @ Ai))
                     if xl is not None and rel(xl, bl @ np.linalg.inv(D)) > 1e-8:
                         found(clause="left product with inv(A)", input=f"(2 x {n} block) @ inv({name}, {an})", observed=f"relative deviation {rel(xl, bl @ np.linalg.inv(D)):.2e}", expected="<= 1e-8")
+    elif prop == "C08":
+        from cola.linalg.trace.diag_trace import diag, trace
+        from cola.linalg.trace.diagonal_estimation import Exact
+        ops = []
+        for cplx in (False, True):
+            t = "complex" if cplx else "real"
+            A5, B5 = pD(rnd(5, 5, cplx=cplx)), pD(rnd(5, 5))
+            bd = pBD([pD(rnd(2, 2, cplx=cplx)), pD(rnd(5, 5, cplx=cplx)), pD(rnd(3, 3))], [1, 2, 1])
+            bd2 = pBD([pD(rnd(4, 4, cplx=cplx)), pDiag(rnd(1, cplx=cplx)), pD(rnd(2, 2))], [1, 3, 2])
+            ops += [(f"Dense {t}", A5), (f"Diagonal {t}", pDiag(rnd(5, cplx=cplx))), (f"Dense + Dense {t}", (A5[0] + B5[0], A5[1] + B5[1])),
+                    (f"Dense @ Dense {t}", pProd(A5, B5)), (f"-1.5 * Dense {t}", pScal(-1.5, A5)),
+                    (f"Kronecker(2x2, 3x3) {t}", pKron(pD(rnd(2, 2, cplx=cplx)), pD(rnd(3, 3)))),
+                    (f"Kronecker(2x2, 2x2, 3x3) {t}", pKron(pD(rnd(2, 2, cplx=cplx)), pD(rnd(2, 2)), pDiag(rnd(3)))),
+                    (f"KronSum(2x2, 3x3) {t}", (KronSum(Dense(A5[1][:2, :2]), Dense(B5[1][:3, :3])), np.kron(A5[1][:2, :2], np.eye(3)) + np.kron(np.eye(2), B5[1][:3, :3]))),
+                    (f"BlockDiag(2x2, 5x5 twice, 3x3) {t}", bd), (f"BlockDiag(4x4, 1x1 three times, 2x2 twice) {t}", bd2),
+                    (f"BlockDiag(2x2, 5x5 twice, 3x3) + Dense {t}", (bd[0] + Dense(np.ones((15, 15))), bd[1] + np.ones((15, 15)))),
+                    (f"BlockDiag(2x2, 5x5 twice, 3x3) @ Diagonal {t}", (bd[0] @ Diagonal(np.arange(1.0, 16.0)), bd[1] @ np.diag(np.arange(1.0, 16.0))))]
+        ops += [("Identity", (Identity((4, 4), np.float64), np.eye(4))), ("ScalarMul", (ScalarMul(-2.5, (4, 4), np.float64), -2.5 * np.eye(4))),
+                ("Dense 230x230", pD(rnd(230, 230)))]
+        for name, (A, D) in ops:
+            n = D.shape[0]
+            ks = range(-n + 1, n) if n < 50 else (0, 1, -1, 99, 100, -101, 129, 130, 229, -229)
+            for an, alg in (("Exact()", Exact()), ("default", None)):
+                for k in ks:
+                    inp = f"diag({name}, k={k}, {an})"
+                    try:
+                        out = np.asarray(diag(A, k, alg) if alg is not None else diag(A, k))
+                    except Exception:
+                        continue            # a refusal is an allowed outcome
+                    n_cases[0] += 1
+                    ref = np.diag(D, k)
+                    if out.shape != ref.shape or rel(out, ref) > 1e-9:
+                        found(clause="diag(A, k) is the k-th diagonal of the dense matrix", input=inp, observed=f"shape {out.shape}: {np.array2string(out, precision=3, threshold=16)}", expected=f"shape {ref.shape}: {np.array2string(ref, precision=3, threshold=16)}")
+                try:
+                    tr = trace(A, alg) if alg is not None else trace(A)
+                except Exception:
+                    continue
+                n_cases[0] += 1
+                if abs(complex(np.asarray(tr)) - np.trace(D)) > 1e-9 * max(1.0, abs(np.trace(D))):
+                    found(clause="trace(A) is the trace of the dense matrix", input=f"trace({name}, {an})", observed=str(tr), expected=str(np.trace(D)))
     elif prop == "C07":
         L = importlib.import_module("cola.linalg.logdet.logdet")
         from cola.linalg.decompositions.decompositions import LU, Cholesky
